@@ -216,6 +216,8 @@ def run_check(pid, tier, seed):
         except HarnessError as e:
             harness_problems.append(str(e))
             continue
+        if v["path"] in [x["path"] for x in violations]:
+            continue  # different signatures minimised to the same scenario
         violations.append(v)
 
     extra, problems = ({}, [])
@@ -280,6 +282,9 @@ def run_check(pid, tier, seed):
     return 0
 
 
+_reported = set()
+
+
 def handle_violation(mod, pid, seed, fl):
     scn = fl["scenario"]
     # (1) confirm in this process
@@ -299,6 +304,9 @@ def handle_violation(mod, pid, seed, fl):
         small, fin = scn, again
     # (3) replay file, (4) report
     path = write_replay(pid, seed, fin[0], small, minimised_from=scn)
+    if path in _reported:
+        return {"path": path, "oracle": fin[0]["oracle"], "sig": fin[0]["sig"]}
+    _reported.add(path)
     print(f"VIOLATION property={pid} replay={path}")
     print(f"  oracle {fin[0]['oracle']}: {fin[0].get('detail')}")
     print(f"  signature {fin[0]['sig']}")
